@@ -3,7 +3,7 @@
    observations: Get results, full dumps of Content / Vectors / TempVectors / active
    version, query hit lists). c33_check replays the run on the model. *)
 From Coq Require Import List ZArith NArith Bool.
-From SopVerif Require Import Vector.
+From SopVerif Require Import Gen.VectorConsts Vector.
 Import ListNotations.
 Local Open Scope Z_scope.
 
@@ -72,7 +72,8 @@ Definition ev_check (s : st) (e : c33ev) : st * bool :=
           && list_eqb tentry_eqb (temp s) t)
   | ELive l => (s, list_eqb N.eqb (live_ids s) l)
   | EQuery buf probes tab k f hits =>
-      (s, hits_valid (ranked buf s probes (sim_of tab) (flt_of f)) hits k)
+      (s, Nat.leb (length probes) vector_query_nprobe
+          && hits_valid (ranked buf s probes (sim_of tab) (flt_of f)) hits k)
   end.
 
 Fixpoint evs_check (s : st) (l : list c33ev) : bool :=
